@@ -38,6 +38,34 @@ func GetOrAddFromCache(ctx context.Context, key string, add func() (rel.Expr, er
 	panic("GetOrAddFromCache: cache not in context")
 }
 
+type importingKeyType int
+
+const importingKey importingKeyType = iota
+
+// importing is the chain of keys whose values are being computed by the current call stack.
+type importing struct {
+	key    string
+	parent *importing
+}
+
+// WithImporting records that the value for key is being computed by the caller, so that a nested
+// request for the same key (an import cycle) can be detected with IsImporting instead of waiting
+// on the caller's own in-flight entry forever.
+func WithImporting(ctx context.Context, key string) context.Context {
+	parent, _ := ctx.Value(importingKey).(*importing)
+	return context.WithValue(ctx, importingKey, &importing{key: key, parent: parent})
+}
+
+// IsImporting returns true if the value for key is being computed further up the call stack.
+func IsImporting(ctx context.Context, key string) bool {
+	for i, _ := ctx.Value(importingKey).(*importing); i != nil; i = i.parent {
+		if i.key == key {
+			return true
+		}
+	}
+	return false
+}
+
 func newImportCache() *importCache {
 	c := &importCache{cache: map[string]rel.Expr{}}
 	c.cond = sync.NewCond(&c.mutex)
